@@ -578,6 +578,12 @@ def install_rng(ex):
     def uniform_int(ex_, st, args, ins, name):
         # environment: an arbitrary value in [0, n)
         st.fresh += 1
+        if ex.dom.name == 'C' or getattr(ex, 'concrete_rng', False):
+            x = (st.fresh * 0x9E3779B97F4A7C15) & ((1 << 64) - 1)
+            x ^= x >> 29
+            x = (x * 0xBF58476D1CE4E5B9) & ((1 << 64) - 1)
+            x ^= x >> 32
+            return x % max(int(args[1]), 1)
         v = T.bvvar('rng!%d' % st.fresh, 64)
         n = args[1]
         st.pc.append(T.icmp('ult', v, n, 64))
